@@ -70,6 +70,19 @@ def a_ls(rng, g):
     return P("-ls")
 
 
+def a_devfull(rng, g):
+    # an action whose write fails (the device is full): diagnosed, exit status non-zero - and the action is still TRUE, so whatever
+    # follows it, negates it or sits in an -o alternative behaves as if the write had worked
+    g.nlab += 1
+    g.devfull = True
+    k = rng.random()
+    if k < 0.4:
+        return P("-fprint", "/dev/full")
+    if k < 0.6:
+        return P("-fprint0", "/dev/full")
+    return P("-fprintf", "/dev/full", "f%d:%%p\n" % g.nlab)
+
+
 def a_exec(rng, g):
     if g.nexec >= 2:
         return a_printf(rng, g)
@@ -94,7 +107,7 @@ def a_dead_delete(rng, g):
     return ("and", [P("-false"), P("-delete")])
 
 
-ACTIONS = [a_print, a_print, a_printf, a_printf, a_printf, a_fprint, a_ls, a_exec, a_prune, a_prune, a_quit]
+ACTIONS = [a_print, a_print, a_printf, a_printf, a_printf, a_fprint, a_ls, a_exec, a_prune, a_prune, a_quit, a_devfull]
 
 
 def o_depthopt(rng, g):
@@ -117,6 +130,7 @@ def gen_case(rng, cid, maxdepth):
     stratum = rng.choice(STRATA)
     g = exprgen.Gen(rng, TESTS, ACTIONS, OPTIONS, maxdepth=maxdepth)
     g.cid, g.nlab, g.files, g.nexec, g.has_plus = cid, 0, [], 0, False
+    g.devfull = False
     noact = exprgen.Gen(rng, TESTS, [a_prune, a_quit] if stratum == "prune_quit_only" else [], OPTIONS,
                         p_action=0.25, maxdepth=max(2, maxdepth - 1))
     noact.cid, noact.nlab, noact.files, noact.nexec, noact.has_plus = cid, 100, g.files, 0, False
@@ -168,7 +182,8 @@ def gen_case(rng, cid, maxdepth):
     toks = exprgen.render(ast, rng)
     # one starting point, or the same tree walked twice / a second starting point (what -quit stops includes later starting points)
     roots = ["r"] if rng.random() < 0.75 else rng.choice([["r", "r"], ["r", "r", "r"], ["r", "r/."], ["./r", "r"]])
-    return {"id": cid, "stratum": stratum, "toks": ["-sorted"] + toks, "files": g.files, "has_plus": g.has_plus, "roots": roots}
+    return {"id": cid, "stratum": stratum, "toks": ["-sorted"] + toks, "files": g.files, "has_plus": g.has_plus, "roots": roots,
+            "devfull": g.devfull}
 
 
 def exec_truth(argv, e):
@@ -264,8 +279,11 @@ def judge(case, cwd, stdout, code, panic, reclog, st, vehicle):
     for tag in got:
         if tag not in exp:
             problems.append("unexpected exec %s" % tag)
-    if not case["has_plus"] and code != 0:
-        problems.append("exit status %r" % code)
+    failed_writes = len(env.sinks.get("/dev/full", []))
+    if failed_writes:
+        st.inc("runs_with_an_action_whose_write_fails")
+    if not case["has_plus"] and code != (1 if failed_writes else 0):
+        problems.append("exit status %r, expected %d" % (code, 1 if failed_writes else 0))
     if problems:
         minmax = opts["maxdepth"] is not None and opts["mindepth"] > opts["maxdepth"]
         st.violate("output-differs", None,
